@@ -376,4 +376,339 @@ example : parseProgram (fun _ => false) []
     exact ⟨rfl, ⟨rfl, trivial, trivial⟩, rfl, trivial⟩
 
 
+/-! # Leaves that round-trip, proved: every i32, the booleans, the 280 registered instructions
+
+`int_roundtrip` (decimal print / parse of every i32, `i32::MIN` included), `int_leafRT`, `bool_leafRT`,
+`instr_leafRT` (kernel-evaluated 280-row table) discharge the per-leaf hypotheses for these leaf
+kinds, so `parse_print_registry` states C11 on STRINGS with no hypothesis at all for trees of any
+shape and size over integers, booleans and registered instructions, for the parser's own
+instruction test `Instr.isName`. -/
+
+theorem digitsVal_eq (cs : List Char) : digitsVal cs = Nat.ofDigitChars 10 cs 0 := by
+  unfold digitsVal Nat.ofDigitChars
+  have : ∀ (init : Nat), cs.foldl (fun a c => a * 10 + (c.toNat - 48)) init
+      = cs.foldl (fun sofar c => 10 * sofar + (c.toNat - '0'.toNat)) init := by
+    induction cs with
+    | nil => intro; rfl
+    | cons c cs ih => intro init; simp only [List.foldl_cons]; rw [Nat.mul_comm]; exact ih _
+  exact this 0
+
+theorem isDigit_of_charIsDigit (c : Char) (h : c.isDigit = true) : isDigit c = true := by
+  simp only [Char.isDigit, Bool.and_eq_true, decide_eq_true_eq] at h
+  simp only [isDigit, Bool.and_eq_true, decide_eq_true_eq]
+  exact ⟨h.1, h.2⟩
+
+theorem toDigits_all_isDigit (n : Nat) : (Nat.toDigits 10 n).all isDigit = true := by
+  rw [List.all_eq_true]
+  intro c hc
+  exact isDigit_of_charIsDigit c (Nat.isDigit_of_mem_toDigits (by decide) (by decide) hc)
+
+/-- parsing the decimal digits of `n` as an i32 -/
+theorem parseI32_toDigits (n : Nat) (hn : n ≤ 2147483647) :
+    parseI32 (Nat.toDigits 10 n) = some (Int32.ofInt n) := by
+  have hall := toDigits_all_isDigit n
+  have hne := Nat.toDigits_ne_nil (n := n) (b := 10)
+  have hval : digitsVal (Nat.toDigits 10 n) = n := by rw [digitsVal_eq]; exact Nat.ofDigitChars_ten_toDigits
+  generalize Nat.toDigits 10 n = cs at *
+  cases cs with
+  | nil => exact absurd rfl hne
+  | cons c r =>
+    have hc : isDigit c = true := by simp only [List.all_cons, Bool.and_eq_true] at hall; exact hall.1
+    have h1 : c ≠ '-' := by intro h; subst h; revert hc; decide
+    have h2 : c ≠ '+' := by intro h; subst h; revert hc; decide
+    unfold parseI32
+    split
+    · next neg ds hm =>
+      have hpair : (neg, ds) = (false, c :: r) := by
+        rw [← hm]
+        split
+        · next r' heq => simp only [List.cons.injEq] at heq; exact absurd heq.1 h1
+        · next r' heq => simp only [List.cons.injEq] at heq; exact absurd heq.1 h2
+        · rfl
+      simp only [Prod.mk.injEq] at hpair
+      obtain ⟨rfl, rfl⟩ := hpair
+      simp only [List.isEmpty_cons, hall, Bool.not_true, Bool.or_self, Bool.false_eq_true, if_false, hval]
+      simp
+      omega
+
+theorem parseI32_neg_toDigits (n : Nat) (hn : n ≤ 2147483648) :
+    parseI32 ('-' :: Nat.toDigits 10 n) = some (Int32.ofInt (-(n : Int))) := by
+  have hall := toDigits_all_isDigit n
+  have hne := Nat.toDigits_ne_nil (n := n) (b := 10)
+  have hval : digitsVal (Nat.toDigits 10 n) = n := by rw [digitsVal_eq]; exact Nat.ofDigitChars_ten_toDigits
+  generalize Nat.toDigits 10 n = cs at *
+  unfold parseI32
+  split
+  · next neg ds hm =>
+    simp only [Prod.mk.injEq] at hm
+    obtain ⟨rfl, rfl⟩ := hm
+    have hemp : cs.isEmpty = false := by cases cs <;> simp_all
+    simp only [hemp, hall, Bool.not_true, Bool.or_self, Bool.false_eq_true, if_false, hval, if_true]
+    simp
+    omega
+
+/-- **every i32 prints to a token that parses back to itself** (including `i32::MIN`) -/
+theorem int_roundtrip (i : Int32) : parseI32 (showI32 i).toList = some i := by
+  have hr := Int32.toInt_lt i
+  have hl := Int32.le_toInt i
+  have hi : Int32.ofInt i.toInt = i := Int32.ofInt_toInt i
+  unfold showI32
+  cases h : i.toInt with
+  | ofNat m =>
+    show parseI32 (Nat.repr m).toList = some i
+    rw [Nat.toList_repr, parseI32_toDigits m (by rw [h] at hr; simp at hr; omega)]
+    rw [← hi, h]; rfl
+  | negSucc m =>
+    show parseI32 ("-" ++ (Nat.succ m).repr).toList = some i
+    rw [String.toList_append, show "-".toList = ['-'] by decide, Nat.toList_repr]
+    simp only [List.singleton_append]
+    rw [parseI32_neg_toDigits (m + 1) (by rw [h] at hl; simp at hl; omega)]
+    rw [← hi, h]; rfl
+
+theorem showI32_head (i : Int32) :
+    ∃ c r, (showI32 i).toList = c :: r ∧ (isDigit c = true ∨ c = '-') := by
+  unfold showI32
+  cases i.toInt with
+  | ofNat m =>
+    show ∃ c r, (Nat.repr m).toList = c :: r ∧ _
+    rw [Nat.toList_repr]
+    have hall := toDigits_all_isDigit m
+    cases hd : Nat.toDigits 10 m with
+    | nil => exact absurd hd Nat.toDigits_ne_nil
+    | cons c r =>
+      rw [hd] at hall
+      simp only [List.all_cons, Bool.and_eq_true] at hall
+      exact ⟨c, r, rfl, Or.inl hall.1⟩
+  | negSucc m =>
+    show ∃ c r, ("-" ++ (Nat.succ m).repr).toList = c :: r ∧ _
+    rw [String.toList_append, show "-".toList = ['-'] by decide]
+    exact ⟨'-', _, rfl, Or.inr rfl⟩
+
+/-- **an integer leaf round-trips**: its print classifies back to the same integer literal (as long as
+the instruction table does not claim the digits) -/
+theorem int_leafRT (f : String → Bool) (i : Int32) (hf : f (showI32 i) = false) :
+    LeafRT f (.lit (.int i)) := by
+  show classify f (showI32 i) = .atom (.lit (.int i))
+  obtain ⟨c, r, hcs, hc⟩ := showI32_head i
+  have hne : ∀ d : Char, (isDigit d = false ∧ d ≠ '-') → c ≠ d := by
+    intro d hd e; subst e
+    rcases hc with h | h
+    · rw [hd.1] at h; cases h
+    · exact hd.2 h
+  have hI := hne 'I' (by decide)
+  have hF := hne 'F' (by decide)
+  have hB := hne 'B' (by decide)
+  have hL := hne '(' (by decide)
+  have hR := hne ')' (by decide)
+  have e1 : (showI32 i == "(") = false := by
+    rw [beq_eq_false_iff_ne]; intro e
+    have := congrArg String.toList e; rw [hcs] at this
+    have h2 : "(".toList = ['('] := by decide
+    rw [h2] at this; simp only [List.cons.injEq] at this; exact hL this.1
+  have e2 : (showI32 i == ")") = false := by
+    rw [beq_eq_false_iff_ne]; intro e
+    have := congrArg String.toList e; rw [hcs] at this
+    have h2 : ")".toList = [')'] := by decide
+    rw [h2] at this; simp only [List.cons.injEq] at this; exact hR this.1
+  have s1 : startsWith (c :: r) "INT[".toList = false := by
+    have : "INT[".toList = ['I', 'N', 'T', '['] := by decide
+    simp [startsWith, this, hI]
+  have s2 : startsWith (c :: r) "FLOAT[".toList = false := by
+    have : "FLOAT[".toList = ['F', 'L', 'O', 'A', 'T', '['] := by decide
+    simp [startsWith, this, hF]
+  have s3 : startsWith (c :: r) "BOOL[".toList = false := by
+    have : "BOOL[".toList = ['B', 'O', 'O', 'L', '['] := by decide
+    simp [startsWith, this, hB]
+  have hp := int_roundtrip i
+  unfold classify
+  simp only [hcs, s1, s2, s3, e1, e2, hf, Bool.false_eq_true, if_false]
+  rw [← hcs, hp]
+
+/-- the three checks of the cascade that precede the instruction test, as one closed Boolean -/
+def preInstr (tok : String) : Bool :=
+  !startsWith tok.toList "INT[".toList && !startsWith tok.toList "FLOAT[".toList &&
+  !startsWith tok.toList "BOOL[".toList && !(tok == "(") && !(tok == ")")
+
+theorem classify_instr (f : String → Bool) (tok : String) (hp : preInstr tok = true) (hf : f tok = true) :
+    classify f tok = .atom (.instr (Instr.ofName tok)) := by
+  simp only [preInstr, Bool.and_eq_true, Bool.not_eq_true'] at hp
+  obtain ⟨⟨⟨⟨h1, h2⟩, h3⟩, h4⟩, h5⟩ := hp
+  unfold classify
+  simp only [h1, h2, h3, h4, h5, hf, Bool.false_eq_true, if_false, if_true]
+
+theorem registered_table :
+    Instr.all.all (fun i => preInstr i.str && (Instr.ofName i.str == i)) = true := by decide +kernel
+
+/-- **every registered instruction name round-trips** through the classification cascade
+(the 280-row table is evaluated by the kernel) -/
+theorem instr_leafRT (f : String → Bool) (i : Instr) (h : i ∈ Instr.all) (hf : f i.str = true) :
+    LeafRT f (.instr i) := by
+  show classify f i.str = .atom (.instr i)
+  have key := List.all_eq_true.mp registered_table i h
+  simp only [Bool.and_eq_true, beq_iff_eq] at key
+  rw [classify_instr f i.str key.1 hf, key.2]
+
+theorem bool_leafRT (f : String → Bool) (b : Bool) (hf : f (showBool b) = false) :
+    LeafRT f (.lit (.bool b)) := by
+  show classify f (showBool b) = .atom (.lit (.bool b))
+  cases b
+  · have h : preInstr "FALSE" = true ∧ parseI32 "FALSE".toList = none ∧ parseF32 "FALSE".toList = none := by decide
+    simp only [preInstr, Bool.and_eq_true, Bool.not_eq_true'] at h
+    obtain ⟨⟨⟨⟨⟨h1, h2⟩, h3⟩, h4⟩, h5⟩, h6, h7⟩ := h
+    unfold classify
+    simp only [showBool, Bool.false_eq_true, if_false] at hf ⊢
+    simp only [h1, h2, h3, h4, h5, hf, h6, h7, Bool.false_eq_true, if_false]
+    rfl
+  · have h : preInstr "TRUE" = true ∧ parseI32 "TRUE".toList = none ∧ parseF32 "TRUE".toList = none := by decide
+    simp only [preInstr, Bool.and_eq_true, Bool.not_eq_true'] at h
+    obtain ⟨⟨⟨⟨⟨h1, h2⟩, h3⟩, h4⟩, h5⟩, h6, h7⟩ := h
+    unfold classify
+    simp only [showBool, if_true] at hf ⊢
+    simp only [h1, h2, h3, h4, h5, hf, h6, h7, Bool.false_eq_true, if_false]
+    rfl
+
+/-! ## a hypothesis-free instance: trees of integers, booleans and registered instructions -/
+
+mutual
+/-- every leaf is an i32, a boolean or a registered instruction, and the instruction test `f` tells them apart -/
+def SimpleLeaves (f : String → Bool) : Item → Prop
+  | .list xs => SimpleLeavesL f xs
+  | .lit v => match v with
+    | .int i => f (showI32 i) = false
+    | .bool b => f (showBool b) = false
+    | _ => False
+  | .instr i => i ∈ Instr.all ∧ f i.str = true
+  | .ident _ => False
+def SimpleLeavesL (f : String → Bool) : List Item → Prop
+  | [] => True
+  | t :: ts => SimpleLeaves f t ∧ SimpleLeavesL f ts
+end
+
+theorem all_known : Instr.all.all (fun i => match i with | .unknown _ => false | _ => true) = true := by
+  decide +kernel
+
+theorem known_of_mem (i : Instr) (h : i ∈ Instr.all) : ∀ s, i ≠ .unknown s := by
+  intro s e; subst e
+  have := List.all_eq_true.mp all_known _ h
+  simp at this
+
+mutual
+theorem simple_word (f : String → Bool) (t : Item) (h : SimpleLeaves f t) : WordLeaves t := by
+  cases t with
+  | list xs => exact simple_wordL f xs h
+  | lit v =>
+    cases v with
+    | int i => exact wsFree_int i
+    | bool b => exact wsFree_bool b
+    | _ => exact absurd h (by simp [SimpleLeaves])
+  | instr i => exact wsFree_instr i (known_of_mem i h.1)
+  | ident n => exact absurd h (by simp [SimpleLeaves])
+theorem simple_wordL (f : String → Bool) (ts : List Item) (h : SimpleLeavesL f ts) : WordLeavesL ts := by
+  cases ts with
+  | nil => trivial
+  | cons t ts => exact ⟨simple_word f t h.1, simple_wordL f ts h.2⟩
+end
+
+mutual
+theorem simple_rt (f : String → Bool) (t : Item) (h : SimpleLeaves f t) : LeafRT f t := by
+  cases t with
+  | list xs => exact simple_rtL f xs h
+  | lit v =>
+    cases v with
+    | int i => exact int_leafRT f i h
+    | bool b => exact bool_leafRT f b h
+    | _ => exact absurd h (by simp [SimpleLeaves])
+  | instr i => exact instr_leafRT f i h.1 h.2
+  | ident n => exact absurd h (by simp [SimpleLeaves])
+theorem simple_rtL (f : String → Bool) (ts : List Item) (h : SimpleLeavesL f ts) : LeafRTL f ts := by
+  cases ts with
+  | nil => trivial
+  | cons t ts => exact ⟨simple_rt f t h.1, simple_rtL f ts h.2⟩
+end
+
+/-- **C11 on strings, without any hypothesis about printing**: a tree of any shape and size whose
+leaves are i32 values (all of them, `i32::MIN` included), booleans and registered instructions prints
+to a string that parses back to exactly that tree -/
+theorem parse_print_simple (f : String → Bool) (t : Item) (h : SimpleLeaves f t) :
+    parseProgram f [] t.show = [t] :=
+  parse_print_string f t (simple_word f t h) (simple_rt f t h)
+
+/-! ## the registry's own instruction test -/
+
+theorem all_are_names : Instr.all.all (fun i => Instr.isName i.str) = true := by decide +kernel
+
+theorem names_start_upper :
+    Instr.table.all (fun p => match p.1.toList with
+      | c :: _ => decide ('A' ≤ c) && decide (c ≤ 'Z')
+      | [] => false) = true := by decide +kernel
+
+/-- a registered name starts with a capital letter -/
+theorem isName_head (s : String) (h : Instr.isName s = true) :
+    ∃ c r, s.toList = c :: r ∧ 'A' ≤ c ∧ c ≤ 'Z' := by
+  simp only [Instr.isName, List.any_eq_true, beq_iff_eq] at h
+  obtain ⟨p, hp, rfl⟩ := h
+  have := List.all_eq_true.mp names_start_upper p hp
+  cases hl : p.1.toList with
+  | nil => simp [hl] at this
+  | cons c r =>
+    simp only [hl, Bool.and_eq_true, decide_eq_true_eq] at this
+    exact ⟨c, r, rfl, this.1, this.2⟩
+
+theorem isName_int (i : Int32) : Instr.isName (showI32 i) = false := by
+  cases h : Instr.isName (showI32 i) with
+  | false => rfl
+  | true =>
+    obtain ⟨c, r, hcs, h1, h2⟩ := isName_head _ h
+    obtain ⟨c', r', hcs', hc'⟩ := showI32_head i
+    rw [hcs] at hcs'
+    simp only [List.cons.injEq] at hcs'
+    obtain ⟨rfl, _⟩ := hcs'
+    exfalso
+    rcases hc' with hd | rfl
+    · simp only [isDigit, Bool.and_eq_true, decide_eq_true_eq] at hd
+      have a1 := Char.le_def.mp h1
+      have a2 := Char.le_def.mp hd.2
+      have : ('9' : Char).val < ('A' : Char).val := by decide
+      exact absurd (UInt32.le_trans a1 a2) (by simpa [UInt32.not_le] using this)
+    · exact absurd h1 (by decide)
+
+mutual
+/-- every leaf is an i32, a boolean or a registered instruction -/
+def RegLeaves : Item → Prop
+  | .list xs => RegLeavesL xs
+  | .lit v => match v with
+    | .int _ => True
+    | .bool _ => True
+    | _ => False
+  | .instr i => i ∈ Instr.all
+  | .ident _ => False
+def RegLeavesL : List Item → Prop
+  | [] => True
+  | t :: ts => RegLeaves t ∧ RegLeavesL ts
+end
+
+mutual
+theorem reg_simple (t : Item) (h : RegLeaves t) : SimpleLeaves Instr.isName t := by
+  cases t with
+  | list xs => exact reg_simpleL xs h
+  | lit v =>
+    cases v with
+    | int i => exact isName_int i
+    | bool b => cases b <;> (show Instr.isName _ = false) <;> decide +kernel
+    | _ => exact absurd h (by simp [RegLeaves])
+  | instr i => exact ⟨h, List.all_eq_true.mp all_are_names i h⟩
+  | ident n => exact absurd h (by simp [RegLeaves])
+theorem reg_simpleL (ts : List Item) (h : RegLeavesL ts) : SimpleLeavesL Instr.isName ts := by
+  cases ts with
+  | nil => trivial
+  | cons t ts => exact ⟨reg_simple t h.1, reg_simpleL ts h.2⟩
+end
+
+/-- **C11 for the parser's own instruction table, no hypotheses**: every tree — any nesting, any
+size — of i32 values, booleans and registered instructions satisfies `parse (print t) = [t]` on strings -/
+theorem parse_print_registry (t : Item) (h : RegLeaves t) :
+    parseProgram Instr.isName [] t.show = [t] :=
+  parse_print_simple Instr.isName t (reg_simple t h)
+
+
 end Pushr.C11
